@@ -5,6 +5,7 @@ library-owned storage, and the receiver of every mutating helper-set method is a
 helper set in order (the remaining hypotheses of the frame theorems hold by themselves).
 -/
 import CtyModel.Lemmas.HeapInvE
+import CtyModel.Lemmas.d20InvOps
 namespace CtyModel
 namespace Heap
 
@@ -35,6 +36,7 @@ theorem stepApi_inv {st st' : St} {c : Api} (hi : Inv st) (hd : docRespectful st
   | unmark v => exact inv_unmark hi h
   | mark v mk => exact inv_mark hi h
   | withMarks v g => exact inv_withMarks hi h
+  | withSameMarks v w => exact inv_withSameMarks hi h
   | opAdd v w => exact inv_ops hi (.inl ⟨v, w, rfl⟩) h
   | opNegate v => exact inv_ops hi (.inr (.inl ⟨v, rfl⟩)) h
   | opEquals v w => exact inv_ops hi (.inr (.inr (.inl ⟨v, w, rfl⟩))) h
@@ -56,6 +58,8 @@ theorem stepApi_inv {st st' : St} {c : Api} (hi : Inv st) (hd : docRespectful st
   | newPathSet => exact inv_newPathSet hi h
   | psAdd g p hh => exact inv_psAdd hi hd h
   | psHas g p hh => exact inv_outs hi (.inr (.inr ⟨g, p, hh, rfl⟩)) h
+  | psRemove g p hh => exact inv_psRemove hi h
+  | psAddAllSteps g p hs => exact inv_psAddAllSteps hi hd h
   | psList g perm => exact inv_psList hi h
   | walkBegin v => exact inv_walkBegin hi h
   | walkNext w => exact inv_walkNext hi h
@@ -103,6 +107,21 @@ theorem receivers_in_order {st : St} {op : HeapOp} (hi : Inv st) (hd : docRespec
       split
       · rename_i ety a hg
         obtain ⟨_, kvs, hm⟩ := go_ok hi hg
+        exact setOwned_of_inv hi.heap hm
+      · rfl
+    case psRemove g p hh =>
+      simp only [respectful]
+      split
+      · rename_i a hg
+        obtain ⟨kvs, hm⟩ := go_ok hi hg
+        exact setOwned_of_inv hi.heap hm
+      · rfl
+    case psAddAllSteps g p hz =>
+      simp only [respectful, Bool.and_eq_true]
+      refine ⟨?_, hd⟩
+      split
+      · rename_i a hg
+        obtain ⟨kvs, hm⟩ := go_ok hi hg
         exact setOwned_of_inv hi.heap hm
       · rfl
     case psAdd g p hh =>
